@@ -174,13 +174,41 @@ package client
 //@   ensures result1 == nil ==> c16putbacks == 0
 
 //@ # ---- the parameter hash must not depend on map iteration order (tags are a map) ----
+//@ ghost c16hashed any
+//@ ghost c16hash string
+//@ ghost c16genarg string
 //@ func CreateNetworkInterfaceOptions.Finish
 //@   maporder
+//@   at call md5Hash: ghost c16hashed = arg0
+//@   at call md5Hash: ghost c16hash = result
+//@   at call GenerateKey: ghost c16genarg = arg0
+//@   # the token is drawn for the hash of the complete request that is sent (every parameter of the call takes part in it)
+//@   ensures result0 != nil ==> isptr(c16hashed, ecs.CreateNetworkInterfaceRequest) && asptr(c16hashed, ecs.CreateNetworkInterfaceRequest) == result0 && c16genarg == c16hash
 //@ func CreateNetworkInterfaceOptions.EFLO
 //@   maporder
+//@   at call md5Hash: ghost c16hashed = arg0
+//@   at call md5Hash: ghost c16hash = result
+//@   at call GenerateKey: ghost c16genarg = arg0
+//@   # the token is drawn for the hash of the complete request that is sent (every parameter of the call takes part in it)
+//@   ensures result0 != nil ==> isptr(c16hashed, eflo.CreateElasticNetworkInterfaceRequest) && asptr(c16hashed, eflo.CreateElasticNetworkInterfaceRequest) == result0 && c16genarg == c16hash
 //@ func AssignPrivateIPAddressOptions.Finish
 //@   maporder
+//@   at call md5Hash: ghost c16hashed = arg0
+//@   at call md5Hash: ghost c16hash = result
+//@   at call GenerateKey: ghost c16genarg = arg0
+//@   # the token is drawn for the hash of the complete request that is sent (every parameter of the call takes part in it)
+//@   ensures result0 != nil ==> isptr(c16hashed, ecs.AssignPrivateIpAddressesRequest) && asptr(c16hashed, ecs.AssignPrivateIpAddressesRequest) == result0 && c16genarg == c16hash
 //@ func AssignPrivateIPAddressOptions.EFLO
 //@   maporder
+//@   at call md5Hash: ghost c16hashed = arg0
+//@   at call md5Hash: ghost c16hash = result
+//@   at call GenerateKey: ghost c16genarg = arg0
+//@   # the token is drawn for the hash of the complete request that is sent (every parameter of the call takes part in it)
+//@   ensures result0 != nil ==> isptr(c16hashed, eflo.AssignLeniPrivateIpAddressRequest) && asptr(c16hashed, eflo.AssignLeniPrivateIpAddressRequest) == result0 && c16genarg == c16hash
 //@ func AssignIPv6AddressesOptions.Finish
 //@   maporder
+//@   at call md5Hash: ghost c16hashed = arg0
+//@   at call md5Hash: ghost c16hash = result
+//@   at call GenerateKey: ghost c16genarg = arg0
+//@   # the token is drawn for the hash of the complete request that is sent (every parameter of the call takes part in it)
+//@   ensures result0 != nil ==> isptr(c16hashed, ecs.AssignIpv6AddressesRequest) && asptr(c16hashed, ecs.AssignIpv6AddressesRequest) == result0 && c16genarg == c16hash
